@@ -3,13 +3,14 @@ module verifharness
 go 1.26.0
 
 require (
+	golang.org/x/exp/typeparams v0.0.0-20231108232855-2478ac86f678
 	golang.org/x/tools v0.44.1-0.20260420230617-19499e7caabc
 	honnef.co/go/tools v0.0.0
 )
 
 require (
 	github.com/BurntSushi/toml v1.4.1-0.20240526193622-a339e1f7089c // indirect
-	golang.org/x/exp/typeparams v0.0.0-20231108232855-2478ac86f678 // indirect
+	golang.org/x/exp v0.0.0-20231110203233-9a3e6036ecaa // indirect
 	golang.org/x/mod v0.35.0 // indirect
 	golang.org/x/sync v0.20.0 // indirect
 )
